@@ -13,8 +13,9 @@ from .core import Violation
 from .layout import Layout
 from .model import act_of
 
-FLAT_ENCODINGS = ["int", "int64", "int32", "uint16", "action"]
-PARAM_ENCODINGS = ["list", "tuple", "ndarray", "ndarray32", "action"]
+FLAT_ENCODINGS = ["int", "int64", "int32", "uint16", "int16", "action"]
+PARAM_ENCODINGS = ["list", "tuple", "ndarray", "ndarray32", "ndarray_u8",
+                   "action"]
 
 
 class SutError(Exception):
@@ -109,6 +110,8 @@ class ActionTable:
                 return np.int32(plain)
             if enc == "uint16":
                 return np.uint16(plain) if plain < 65536 else np.int64(plain)
+            if enc == "int16":
+                return np.int16(plain) if plain < 32768 else np.int64(plain)
             if enc == "action":
                 return self.env.action_space.get_action(int(plain))
         else:
@@ -120,6 +123,9 @@ class ActionTable:
                 return np.array(plain, dtype=np.int64)
             if enc == "ndarray32":
                 return np.array(plain, dtype=np.int32)
+            if enc == "ndarray_u8":
+                return np.array(plain, dtype=np.uint8 if max(plain) < 256
+                                else np.int64)
             if enc == "action":
                 return self.env.action_space.get_action(list(plain))
         raise ValueError(enc)
@@ -162,6 +168,8 @@ class EnvSim:
         self.classes = set()
         self.steps_total = 0
         self.progress = 0
+        self.gstep_outputs = {}
+        self.gstep_ops = []
         if scenario is not None:
             self.scenario, self.cfg = scenario, cfg
         else:
@@ -356,6 +364,30 @@ class EnvSim:
         x = self.table.encode(plain, "int" if self.table.flat else "list")
         rec = self.oracle.transition(state, obj, x, self._draws_for(op),
                                      real=False, background=True)
+        # a generative step is a function of (state, action, draw): the same
+        # op repeated later (other current state, other episode) must give
+        # the same outputs
+        snap = (rec["post_t"].tobytes(), rec["obs2d"].tobytes(),
+                float(rec["reward"]), bool(rec["done"]), rec["info_snap"])
+        if src == "cur":
+            rkey = None
+        else:
+            rkey = (src, tuple(map(str, op["a"])), tuple(op["u"]))
+        if rkey is not None:
+            old = self.gstep_outputs.get(rkey)
+            if old is not None and "C13" in self.props:
+                self.counters.hit("probe.repeated_gstep_compared")
+                names = ("next state", "observation", "reward",
+                         "terminal flag", "info")
+                diff = [n for n, a, b in zip(names, old, snap) if a != b]
+                if diff:
+                    raise Violation(
+                        "C13.pure", "the same generative step (same state "
+                        "object, action and draw) gave different results "
+                        "when repeated later: it depends on something "
+                        "other than its arguments", differs=diff,
+                        action=op["a"])
+            self.gstep_outputs.setdefault(rkey, snap)
         self.rec_out("gstep", state=rec["post_t"].tobytes(),
                      obs=rec["obs2d"].tobytes(), reward=float(rec["reward"]),
                      done=bool(rec["done"]),
@@ -540,7 +572,8 @@ class EnvSim:
             enc = wl.choice(FLAT_ENCODINGS) if swarm.exotic_enc else "int"
         else:
             enc = wl.choice(PARAM_ENCODINGS) if swarm.exotic_enc else "list"
-            if wl.random() < (0.12 if self.props & {"C01", "C11"} else 0.03):
+            if wl.random() < (0.12 if self.props & {"C01", "C11", "C09", "C06"}
+                               else 0.03):
                 vec = self._noop_vector(wl, status)
                 if vec is not None:
                     return {"op": "step", "a": ["noop", [1, 0], "noop"],
@@ -593,6 +626,13 @@ class EnvSim:
         return None
 
     def _gen_gstep(self, wl, fl, swarm):
+        # sometimes repeat an earlier look-ahead verbatim (its source state
+        # must still be stored)
+        live = [o for o in self.gstep_ops if o["src"] in self.states]
+        if live and "C13" in self.props and wl.random() < 0.35:
+            o = wl.choice(live)
+            return {"op": "gstep", "src": o["src"], "a": o["a"],
+                    "u": o["u"]}
         src = "cur"
         if self.state_sids and wl.random() < 0.5:
             src = wl.choice(self.state_sids)
@@ -600,8 +640,12 @@ class EnvSim:
         status = read_status(state, self.cfg)
         k = self._pick_action(wl, swarm, status)
         a = self._act_of_key(k)
-        return {"op": "gstep", "src": src, "a": [k[0], list(k[1]), k[2]],
-                "u": self._gen_draws(fl, swarm, a)}
+        op = {"op": "gstep", "src": src, "a": [k[0], list(k[1]), k[2]],
+              "u": self._gen_draws(fl, swarm, a)}
+        if src != "cur":
+            self.gstep_ops.append(op)
+            self.gstep_ops = self.gstep_ops[-6:]
+        return op
 
 
 # --------------------------------------------------------------------------
